@@ -58,7 +58,7 @@ enum_body = enum_item[1, ...]
 enum_name = pp.Combine(name("schema") + '.' + name("name")) | name("name")
 
 enum = _c + (
-    pp.CaselessLiteral('enum')
+    pp.CaselessKeyword('enum')
     - enum_name + _
     - '{'
     + enum_body('items') + n
